@@ -132,8 +132,9 @@ PROPS = {
     },
     "C09": {
         "streams": [_FRAG_STREAM, {"name": "mux", "quick": 6000, "thorough": 300000, "thorough_seeds": 3}],
-        "oracles": ["frag", "mux"],
-        "rule": "payload lengths 0, 1, part size +-1, 2 and 3 parts, MTU-1, MTU, MTU+1 against fragswarm/mbapp over inner MTUs "
+        "oracles": ["frag", "mux", "swarm"], "oracle_n_by": {"swarm": {"quick": 28, "thorough": 600}},
+        "rule": "swarm oracle: on 14 real stacks (incl. QUIC and SSH over loopback) Tells at MTU-1/MTU/MTU+1 and Asks with requests of "
+                "MTU-5..MTU (answered) and MTU+1 (refused with the MTU error); payload lengths 0, 1, part size +-1, 2 and 3 parts, MTU-1, MTU, MTU+1 against fragswarm/mbapp over inner MTUs "
                 "14..1200 and configured MTUs 10..100000; muxed swarms of all five kinds over inner MTUs 16..65536 with payloads "
                 "of exactly MTU() and MTU()+1",
         "assumptions": ["per-layer theorems; transports over real sockets (UDP/QUIC/SSH) are assumed to honour their own MTU()"],
